@@ -124,6 +124,7 @@ func RunClientUpdater(statusport int, abort <-chan struct{}) {
 			return
 
 		case update := <-clientMessageChan:
+			verifClientUpdate(update)
 			if update.tag == "SENDALL" {
 				for k, v := range lastMessages {
 					publish(pubSocket, ClientUpdate{tag: k, state: v}, []byte(lastMessageStrings[k]))
@@ -187,6 +188,9 @@ var configLock sync.Mutex
 func saveState(lastMessages map[string]interface{}) {
 	configLock.Lock()
 	defer configLock.Unlock()
+	verifSync("lock", "cfg", &configLock)
+	defer verifSync("unlock", "cfg", &configLock)
+	verifAcc("vip", &configLock, true)
 
 	lastMessages["___1"] = "DASTARD configuration file. Written and read by DASTARD."
 	lastMessages["___2"] = "Human intervention by experts is permitted but not expected."
